@@ -21,9 +21,14 @@ def okIn (c : C) : In → Prop
   | .connect _ => c.clientAlive = true ∧ connectOk c
   | .disconnect _ => c.clientAlive = true
   | .stop _ => c.clientAlive = true
-  | .enableRetry => c.clientAlive = true
+  -- a client that reconnects by itself must not be told `connect()` by its DOWN callback as well (two attempts)
+  | .enableRetry => c.clientAlive = true ∧ HookOp.connect ∉ c.hooksDown
   | .destroy w => c.clientAlive = true ∧ w = .loop
   | .dropRef => dropOk c
+  -- operations of the connection callback: `connect()` never from the UP callback (a connection is outstanding:
+  -- the property's own quantifier), from the DOWN callback only when the client does not reconnect by itself
+  | .hookUp op => op ≠ .connect
+  | .hookDown op => op = .connect → c.retry = false
   | _ => True
 instance (c : C) (i : In) : Decidable (okIn c i) := by
   cases i <;> unfold okIn <;> infer_instance
@@ -60,7 +65,7 @@ theorem userConnect_mid (c : C) (w : Who) (hi : Mid c [] true) (hal : c.clientAl
   have htr := hi.tr.gConnect hal
   have hnr : Task.resetChannel ∉ c.pending := hi.a16 rfl
   have h1 : Mid { c with tConnect := true, cConnect := true, stopReq := false, trace := c.trace ++ [.ghost .connect] } [] true := by
-    obtain ⟨notDead, a1, a2, a3, a4, a5, a6, a7, a8, a9, a10, a11, a13, a14, a15, a16, s1, c1, c2, c3, c4, c5, c6, c7, c8, c9, c10, g1, g3, t1⟩ := hi
+    obtain ⟨notDead, a1, a2, a3, a4, a5, a6, a7, a8, a9, a10, a11, a13, a14, a15, a16, s1, c1, c2, c3, c4, c5, c6, c7, c8, c9, c10, g1, g3, h1, t1⟩ := hi
     constructor
     all_goals mid_auto3
   unfold userConnect
@@ -73,57 +78,15 @@ theorem userConnect_mid (c : C) (w : Who) (hi : Mid c [] true) (hal : c.clientAl
     simp only
     unfold enqueue
     have hcnt : c.pending.count Task.startCycle = 0 := List.count_eq_zero.mpr hns
-    obtain ⟨notDead, a1, a2, a3, a4, a5, a6, a7, a8, a9, a10, a11, a13, a14, a15, a16, s1, c1, c2, c3, c4, c5, c6, c7, c8, c9, c10, g1, g3, t1⟩ := h1
+    obtain ⟨notDead, a1, a2, a3, a4, a5, a6, a7, a8, a9, a10, a11, a13, a14, a15, a16, s1, c1, c2, c3, c4, c5, c6, c7, c8, c9, c10, g1, g3, h1, t1⟩ := h1
     constructor
     all_goals mid_auto3
 
 theorem userStop_mid (c : C) (w : Who) (hi : Mid c [] true) (hal : c.clientAlive = true) :
-    Mid (userStop c w) [] true := by
-  have htr := hi.tr.gStop hal
-  unfold userStop connectorStop
-  simp only [stopDispatch]
-  have : Mid (enqueue { c with tConnect := false, stopReq := true, trace := c.trace ++ [.ghost .stop], cConnect := false } .stopInLoop) [] true := by
-    unfold enqueue
-    obtain ⟨notDead, a1, a2, a3, a4, a5, a6, a7, a8, a9, a10, a11, a13, a14, a15, a16, s1, c1, c2, c3, c4, c5, c6, c7, c8, c9, c10, g1, g3, t1⟩ := hi
-    constructor
-    all_goals mid_auto3
-  cases w <;> exact this
+    Mid (userStop c w) [] true := userStop_midG c [] true w hi hal
 
-theorem userDisconnect_mid (c : C) (hi : Mid c [] true) : Mid (userDisconnect c) [] true := by
-  have h1 : Mid { c with tConnect := false } [] true := by
-    obtain ⟨notDead, a1, a2, a3, a4, a5, a6, a7, a8, a9, a10, a11, a13, a14, a15, a16, s1, c1, c2, c3, c4, c5, c6, c7, c8, c9, c10, g1, g3, t1⟩ := hi
-    constructor
-    all_goals mid_auto3
-  unfold userDisconnect
-  simp only
-  split
-  case h_2 => exact h1
-  case h_1 k hcn =>
-    have hcn : c.connection = some k := hcn
-    obtain ⟨x, hx, hst, hcb⟩ := hi.c7 k hcn
-    unfold connShutdown
-    have hcs : connSt { c with tConnect := false } k = x.st := by simp [connSt, findConn_eq, hx]
-    rw [hcs]
-    split
-    · rename_i hconn
-      rw [updConn_eq]
-      unfold enqueue
-      have hmem := @mem_map_upd c.conns k toDisconnecting
-      have hfind := fun j => @findIn_upd c.conns k j toDisconnecting (fun _ => rfl)
-      have hsocks := @socks_upd c.conns k toDisconnecting (fun _ => rfl)
-      have hfs := @findIn_some c.conns
-      have hw := holds_shutdown k
-      have hxu : ∀ y ∈ c.conns, y.sock = k → y = x := by
-        intro y hy hk
-        have := findIn_of_mem hi.c2 hy; rw [hk, hx] at this; exact (Option.some.inj this).symm
-      have htr := hi.tr.upd_same k toDisconnecting (fun _ => rfl) (fun r hr => by
-        rw [hx] at hr; cases hr; exact ⟨rfl, by simp [toDisconnecting, hst]⟩)
-      show Mid { c with tConnect := false, conns := c.conns.map (updRec k toDisconnecting),
-                        pending := c.pending ++ [.shutdownInLoop k] } [] true
-      obtain ⟨notDead, a1, a2, a3, a4, a5, a6, a7, a8, a9, a10, a11, a13, a14, a15, a16, s1, c1, c2, c3, c4, c5, c6, c7, c8, c9, c10, g1, g3, t1⟩ := hi
-      constructor
-      all_goals mid_auto3
-    · exact h1
+theorem userDisconnect_mid (c : C) (hi : Mid c [] true) : Mid (userDisconnect c) [] true :=
+  userDisconnect_midG c [] true hi
 
 /-! ### `~TcpClient` on the loop thread -/
 
@@ -138,7 +101,7 @@ theorem destroyIdle_mid (c : C) (hi : Mid c [] true) (hal : c.clientAlive = true
                  pending := c.pending ++ [.stopInLoop], timers := c.timers ++ [(d, .park)],
                  clientAlive := false, connection := none } [] true := by
   have htr := hi.tr.gDestroy hal
-  obtain ⟨notDead, a1, a2, a3, a4, a5, a6, a7, a8, a9, a10, a11, a13, a14, a15, a16, s1, c1, c2, c3, c4, c5, c6, c7, c8, c9, c10, g1, g3, t1⟩ := hi
+  obtain ⟨notDead, a1, a2, a3, a4, a5, a6, a7, a8, a9, a10, a11, a13, a14, a15, a16, s1, c1, c2, c3, c4, c5, c6, c7, c8, c9, c10, g1, g3, h1, t1⟩ := hi
   constructor
   all_goals mid_auto4
 
@@ -159,7 +122,7 @@ theorem destroyUnique_mid (c : C) (hi : Mid c [] true) (hal : c.clientAlive = tr
     have := findIn_of_mem hi.c2 hy; rw [hk, hx] at this; exact (Option.some.inj this).symm
   have htr := (hi.tr.gDestroy hal).upd_same k detachClose (fun _ => rfl) (fun r hr => by
     rw [hx] at hr; cases hr; exact ⟨rfl, by simp [detachClose, hst]⟩)
-  obtain ⟨notDead, a1, a2, a3, a4, a5, a6, a7, a8, a9, a10, a11, a13, a14, a15, a16, s1, c1, c2, c3, c4, c5, c6, c7, c8, c9, c10, g1, g3, t1⟩ := hi
+  obtain ⟨notDead, a1, a2, a3, a4, a5, a6, a7, a8, a9, a10, a11, a13, a14, a15, a16, s1, c1, c2, c3, c4, c5, c6, c7, c8, c9, c10, g1, g3, h1, t1⟩ := hi
   constructor
   all_goals mid_auto4
   · intro y hy hne
@@ -190,7 +153,7 @@ theorem destroyShared_mid (c : C) (hi : Mid c [] true) (hal : c.clientAlive = tr
     intro y hy hk
     have := findIn_of_mem hi.c2 hy; rw [hk, hx] at this; exact (Option.some.inj this).symm
   have htr := (hi.tr.gDestroy hal).upd_same k detach (fun _ => rfl) (fun r _ => ⟨rfl, Iff.rfl⟩)
-  obtain ⟨notDead, a1, a2, a3, a4, a5, a6, a7, a8, a9, a10, a11, a13, a14, a15, a16, s1, c1, c2, c3, c4, c5, c6, c7, c8, c9, c10, g1, g3, t1⟩ := hi
+  obtain ⟨notDead, a1, a2, a3, a4, a5, a6, a7, a8, a9, a10, a11, a13, a14, a15, a16, s1, c1, c2, c3, c4, c5, c6, c7, c8, c9, c10, g1, g3, h1, t1⟩ := hi
   constructor
   all_goals mid_auto4
 
@@ -335,7 +298,7 @@ theorem holdRef_mid (c : C) (hi : Mid c [] true) : Mid (holdRef c) [] true := by
     have hfs := @findIn_some c.conns
     have htr := hi.tr.mapg_same (setRef k) (fun _ => ⟨rfl, rfl, rfl⟩)
     show Mid { c with conns := c.conns.map (setRef k) } [] true
-    obtain ⟨notDead, a1, a2, a3, a4, a5, a6, a7, a8, a9, a10, a11, a13, a14, a15, a16, s1, c1, c2, c3, c4, c5, c6, c7, c8, c9, c10, g1, g3, t1⟩ := hi
+    obtain ⟨notDead, a1, a2, a3, a4, a5, a6, a7, a8, a9, a10, a11, a13, a14, a15, a16, s1, c1, c2, c3, c4, c5, c6, c7, c8, c9, c10, g1, g3, h1, t1⟩ := hi
     constructor
     all_goals (first | assumption | grind [attempting, held, Task.plain, Task.holds, setRef] | skip)
     · intro y hy hne
@@ -357,7 +320,7 @@ theorem dropRef_mid (c : C) (hi : Mid c [] true) (hok : dropOk c) : Mid (dropRef
   have htr := hi.tr.mapg_same clearRef (fun _ => ⟨rfl, rfl, rfl⟩)
   unfold dropOk at hok
   show Mid { c with conns := c.conns.map clearRef } [] true
-  obtain ⟨notDead, a1, a2, a3, a4, a5, a6, a7, a8, a9, a10, a11, a13, a14, a15, a16, s1, c1, c2, c3, c4, c5, c6, c7, c8, c9, c10, g1, g3, t1⟩ := hi
+  obtain ⟨notDead, a1, a2, a3, a4, a5, a6, a7, a8, a9, a10, a11, a13, a14, a15, a16, s1, c1, c2, c3, c4, c5, c6, c7, c8, c9, c10, g1, g3, h1, t1⟩ := hi
   constructor
   all_goals (first | assumption | grind [attempting, held, Task.plain, Task.holds, clearRef] | skip)
 
@@ -367,13 +330,32 @@ theorem advance_mid (c : C) (us : Nat) (hi : Mid c [] true) : Mid { c with now :
     cases hon : c.chanOn
     · exact absurd (hi.a5 h hon).1 (by simpa using hi.a16 rfl)
     · rfl
-  obtain ⟨notDead, a1, a2, a3, a4, a5, a6, a7, a8, a9, a10, a11, a13, a14, a15, a16, s1, c1, c2, c3, c4, c5, c6, c7, c8, c9, c10, g1, g3, t1⟩ := hi
+  obtain ⟨notDead, a1, a2, a3, a4, a5, a6, a7, a8, a9, a10, a11, a13, a14, a15, a16, s1, c1, c2, c3, c4, c5, c6, c7, c8, c9, c10, g1, g3, h1, t1⟩ := hi
   constructor
   all_goals mid_auto3
 
-theorem enableRetry_mid (c : C) (hi : Mid c [] true) : Mid { c with retry := true } [] true :=
+theorem enableRetry_mid (c : C) (hi : Mid c [] true) (hno : HookOp.connect ∉ c.hooksDown) : Mid { c with retry := true } [] true :=
   ⟨hi.notDead, hi.a1, hi.a2, hi.a3, hi.a4, hi.a5, hi.a6, hi.a7, hi.a8, hi.a9, hi.a10, hi.a11, hi.a13, hi.a14, hi.a15, hi.a16,
-   hi.s1, hi.c1, hi.c2, hi.c3, hi.c4, hi.c5, hi.c6, hi.c7, hi.c8, hi.c9, hi.c10, hi.g1, hi.g3, hi.t1⟩
+   hi.s1, hi.c1, hi.c2, hi.c3, hi.c4, hi.c5, hi.c6, hi.c7, hi.c8, hi.c9, hi.c10, hi.g1, hi.g3,
+   ⟨hi.h1.1, fun h => absurd h hno⟩, hi.t1⟩
+
+theorem hookUp_mid (c : C) (op : HookOp) (hi : Mid c [] true) (hop : op ≠ .connect) :
+    Mid { c with hooksUp := c.hooksUp ++ [op] } [] true :=
+  ⟨hi.notDead, hi.a1, hi.a2, hi.a3, hi.a4, hi.a5, hi.a6, hi.a7, hi.a8, hi.a9, hi.a10, hi.a11, hi.a13, hi.a14, hi.a15, hi.a16,
+   hi.s1, hi.c1, hi.c2, hi.c3, hi.c4, hi.c5, hi.c6, hi.c7, hi.c8, hi.c9, hi.c10, hi.g1, hi.g3,
+   ⟨fun h => by
+      rcases List.mem_append.mp h with h | h
+      · exact hi.h1.1 h
+      · exact hop (List.mem_singleton.mp h).symm, hi.h1.2⟩, hi.t1⟩
+
+theorem hookDown_mid (c : C) (op : HookOp) (hi : Mid c [] true) (hop : op = .connect → c.retry = false) :
+    Mid { c with hooksDown := c.hooksDown ++ [op] } [] true :=
+  ⟨hi.notDead, hi.a1, hi.a2, hi.a3, hi.a4, hi.a5, hi.a6, hi.a7, hi.a8, hi.a9, hi.a10, hi.a11, hi.a13, hi.a14, hi.a15, hi.a16,
+   hi.s1, hi.c1, hi.c2, hi.c3, hi.c4, hi.c5, hi.c6, hi.c7, hi.c8, hi.c9, hi.c10, hi.g1, hi.g3,
+   ⟨hi.h1.1, fun h => by
+      rcases List.mem_append.mp h with h | h
+      · exact hi.h1.2 h
+      · exact hop (List.mem_singleton.mp h).symm⟩, hi.t1⟩
 
 /-! ### every guarded history -/
 
@@ -393,7 +375,7 @@ theorem step_bnd (c : C) (i : In) (hi : Bnd c) (hok : okIn c i) : Bnd (step c i)
     rw [if_pos hok]; exact userStop_mid c w hi hok
   | enableRetry =>
     simp only [stepLive, okIn] at hok ⊢
-    rw [if_pos hok]; exact enableRetry_mid c hi
+    rw [if_pos hok.1]; exact enableRetry_mid c hi hok.2
   | destroy w =>
     simp only [okIn] at hok
     obtain ⟨hal, rfl⟩ := hok
@@ -421,6 +403,8 @@ theorem step_bnd (c : C) (i : In) (hi : Bnd c) (hok : okIn c i) : Bnd (step c i)
     split
     · rename_i hd; rw [h.notDead] at hd; cases hd
     · exact reap_mid _ h
+  | hookUp op => exact hookUp_mid c op hi hok
+  | hookDown op => exact hookDown_mid c op hi hok
   | advance us => exact advance_mid c us hi
   | iter active => exact iter_bnd c active hi
   | envConnect r => exact hi.env (c.envConnect ++ [r]) c.envSoErr c.envSelf c.envRead c.starved c.horizon
